@@ -210,6 +210,10 @@ def rule_of_five(chk, db, rec_q):
                               {"record": rec_q})
 
 
+META_EXTRA = 'SLOTS-D / SLOTS-C (destroyed range = removed tail; construction at the first free slot); SRC (no source-destroying slot on a const source).'
+META = (META[0] + " " + META_EXTRA, META[1])
+
+
 def run(chk, tier):
     db = D.load("checks")
     sigs = L.slot_signatures(db)
